@@ -3,6 +3,7 @@ the option keys, which are boolean, the argparse default of options not given on
 line, and (fail-closed) the shape of the merge in get_options and of priority_options in main."""
 import ast
 import os
+import string
 import sys
 
 HERE = os.path.dirname(os.path.abspath(__file__))
@@ -12,6 +13,88 @@ import common  # noqa: E402
 
 class TranslationError(Exception):
     pass
+
+
+def parse_class_regex(pat):
+    """A pattern that is one character class (or one literal character), optionally followed by +.
+    Returns (kind, code points, plus) with kind 'Fin' (matches the listed) or 'CoFin' (matches all but)."""
+    plus = pat.endswith("+") and len(pat) > 1 and not pat.endswith("\\+")
+    body = pat[:-1] if plus else pat
+    if len(body) == 1 and body not in ".^$*+?{}[]\\|()":
+        return "Fin", [ord(body)], plus
+    if not (body.startswith("[") and body.endswith("]") and len(body) > 2):
+        raise TranslationError(f"sanitise_filename: pattern {pat!r} is not a single character class")
+    inner = body[1:-1]
+    neg = inner.startswith("^")
+    if neg:
+        inner = inner[1:]
+    if not inner or "[" in inner or "]" in inner or "\\" in inner:
+        raise TranslationError(f"sanitise_filename: character class {pat!r} uses escapes or nested brackets")
+    cps, i = [], 0
+    while i < len(inner):
+        if i + 2 < len(inner) and inner[i + 1] == "-":
+            lo, hi = ord(inner[i]), ord(inner[i + 2])
+            if hi < lo:
+                raise TranslationError(f"sanitise_filename: bad range in {pat!r}")
+            cps.extend(range(lo, hi + 1))
+            i += 3
+        else:
+            cps.append(ord(inner[i]))
+            i += 1
+    return ("CoFin" if neg else "Fin"), sorted(set(cps)), plus
+
+
+def sanitise_steps(mn):
+    """main.sanitise_filename as a pipeline of class substitutions (fail-closed on any other shape)."""
+    fs = [n for n in ast.walk(mn) if isinstance(n, ast.FunctionDef) and n.name == "sanitise_filename"]
+    if len(fs) != 1:
+        raise TranslationError("main.py: sanitise_filename not found")
+    f = fs[0]
+    body = [s_ for s_ in f.body if not (isinstance(s_, ast.Expr) and isinstance(s_.value, ast.Constant))]
+    arg = f.args.args[0].arg
+    if not body or ast.unparse(body[0]) != f"name_s = pathlib.Path({arg}).stem":
+        raise TranslationError("sanitise_filename does not start from pathlib.Path(name).stem")
+    steps = []
+
+    def sub_call(e):
+        # re.subn(P, R, name_s)[0]  or  re.sub(P, R, name_s)
+        if isinstance(e, ast.Subscript) and ast.unparse(e.slice) == "0" and isinstance(e.value, ast.Call) and ast.unparse(e.value.func) == "re.subn":
+            c = e.value
+        elif isinstance(e, ast.Call) and ast.unparse(e.func) == "re.sub":
+            c = e
+        else:
+            raise TranslationError(f"sanitise_filename: unrecognised step {ast.unparse(e)}")
+        if len(c.args) != 3 or c.keywords or ast.unparse(c.args[2]) != "name_s":
+            raise TranslationError(f"sanitise_filename: unrecognised substitution {ast.unparse(c)}")
+        for n in ast.walk(c.args[0]):
+            if isinstance(n, ast.Name) and n.id != "string" or isinstance(n, ast.Attribute) and not (
+                    ast.unparse(n) in ("string.ascii_letters", "string.digits", "string.ascii_lowercase", "string.ascii_uppercase")
+                    or n.attr == "format"):
+                raise TranslationError(f"sanitise_filename: pattern expression {ast.unparse(c.args[0])} not understood")
+        pat = eval(compile(ast.Expression(c.args[0]), "<pattern>", "eval"), {"__builtins__": {}, "string": string})  # noqa: S307
+        if not (isinstance(c.args[1], ast.Constant) and isinstance(c.args[1].value, str)) or not isinstance(pat, str):
+            raise TranslationError("sanitise_filename: pattern / replacement is not a string")
+        kind, cps, plus = parse_class_regex(pat)
+        rep = c.args[1].value
+        if "\\" in rep:
+            raise TranslationError("sanitise_filename: replacement uses escapes")
+        steps.append((kind, cps, plus, [ord(ch) for ch in rep], pat, rep))
+
+    for s_ in body[1:]:
+        if isinstance(s_, ast.Assign) and ast.unparse(s_.targets[0]) == "name_s":
+            sub_call(s_.value)
+        elif isinstance(s_, ast.Return):
+            if ast.unparse(s_.value) != "name_s":
+                sub_call(s_.value)
+        else:
+            raise TranslationError(f"sanitise_filename: unrecognised statement {ast.unparse(s_)}")
+    if not isinstance(body[-1], ast.Return):
+        raise TranslationError("sanitise_filename does not end in a return")
+    src = ast.unparse(mn)
+    for need in ("namespaces = [sanitise_filename(name) for name in filenames]", "outfiles = [sanitise_filename(name) for name in filenames]"):
+        if need not in src:
+            raise TranslationError(f"main.py: expected `{need}`")
+    return steps
 
 
 def generate():
@@ -74,6 +157,13 @@ def generate():
              "(* value a parsed option holds when it is not given on the command line *)",
              'Definition argdefault (k : string) : option string :=',
              '  if opt_is_bool k then (if bool_default_none then None else Some "False") else None.']
+    steps = sanitise_steps(mn)
+    lines += ["From Coq Require Import NArith.", "From FFCX Require Import Sanit.",
+              "(* main.sanitise_filename: " + "; ".join(f"sub({p!r}, {r!r})" for *_, p, r in steps).replace("*)", "* )") + " *)",
+              "Definition sanitise_steps : list step := ["]
+    lines.append(";\n".join(
+        "  {| matcher := %s [%s]%%N; plus := %s; repl := [%s]%%N |}" % (k, "; ".join(map(str, cps)), "true" if pl else "false", "; ".join(map(str, rp)))
+        for k, cps, pl, rp, _, _ in steps) + "].")
     os.makedirs(common.GEN, exist_ok=True)
     open(os.path.join(common.GEN, "OptGen.v"), "w").write("\n".join(lines) + "\n")
     return keys, isbool, bool_default_none
